@@ -22,6 +22,8 @@ pub enum Move {
     Seek(Vec<u8>),
     Next,
     Prev,
+    /// `next` until the cursor is exhausted
+    ToEnd,
 }
 
 impl Move {
@@ -32,6 +34,7 @@ impl Move {
             Move::Seek(k) => format!("seek({})", vcore::esc(k)),
             Move::Next => "next".into(),
             Move::Prev => "prev".into(),
+            Move::ToEnd => "to_end".into(),
         }
     }
 
@@ -41,6 +44,7 @@ impl Move {
             "seek_to_last" => Move::Last,
             "next" => Move::Next,
             "prev" => Move::Prev,
+            "to_end" => Move::ToEnd,
             _ => {
                 let inner = s
                     .strip_prefix("seek(")
@@ -58,6 +62,15 @@ impl Move {
             Move::Seek(k) => c.seek(k),
             Move::Next => c.next(),
             Move::Prev => c.prev(),
+            Move::ToEnd => {
+                for _ in 0..10_000 {
+                    c.next()?;
+                    if c.key().is_none() {
+                        break;
+                    }
+                }
+                Ok(())
+            }
         }
     }
 }
@@ -108,6 +121,7 @@ impl RefCursor {
             }
             Move::Next => self.idx = (self.idx + 1).min(n),
             Move::Prev => self.idx = (self.idx - 1).max(-1),
+            Move::ToEnd => self.idx = n,
         }
     }
 
